@@ -419,7 +419,7 @@ def bridged(line):
     if o in ('pb', 'ins', 'insn'):
         return True
     if o == 'rszv':
-        return not t[-1].startswith('s')
+        return True
     if o == 'insr':
         return len(t) > 4 and t[3] in ('fw', 'ra') and t[4] != '-'
     if o in ('asr', 'app'):
